@@ -46,6 +46,9 @@ pub(crate) struct CallFrame {
     /// beginning of the local stack
     pub stack_offset: u32,
     pub closure: *mut CaoLangClosure,
+    /// the object `closure` lives in (null when the frame does not run a closure);
+    /// keeps the running closure alive during collections
+    pub closure_object: *mut CaoLangObject,
 }
 
 impl RuntimeData {
@@ -325,6 +328,15 @@ impl RuntimeData {
             }
         }
 
+        // closures that are being executed are roots, even if the value that was called is gone
+        for frame in self.call_stack.iter() {
+            if let Some(obj) = unsafe { frame.closure_object.as_mut() } {
+                if matches!(obj.marker, GcMarker::White) {
+                    obj.marker = GcMarker::Gray;
+                    progress_tracker.push(obj);
+                }
+            }
+        }
         // objects protected by a guard are roots too: what they refer to has to survive
         for obj in self.object_list.iter_mut() {
             let obj = unsafe { obj.as_mut() };
